@@ -803,6 +803,20 @@ var witnesses = []witness{
 		}
 		return ""
 	}},
+	{id: "F77", props: []string{"C08", "C07"}, what: "an UPDATE of the key to a value that merely converts to the old key reported success and kept the old key", run: func(w *wEnv) string {
+		w.mk("t", "k primary key, a", sqlh.TableOpts{})
+		w.x("insert into t values (1,'one'),(3,'three'),(0,'zero'),(1.5,'real'),('x','text'),(x'41','blob'),(7,'seven')")
+		for _, u := range []string{"update t set k = 4294967297 where k = 1", "update t set k = 3.5 where k = 3", "update t set k = NULL where k = 0",
+			"update t set k = '1.5abc' where k = 1.5", "update t set k = x'78' where k = 'x'", "update t set k = 'A' where k = x'41'", "update t set k = k + 0.0, a = 'upd' where k = 7"} {
+			if r := w.x(u); !strings.HasPrefix(r, "ERR") {
+				return u + ": " + r
+			}
+		}
+		if r := w.x("update t set k = 7, a = 'same key' where k = 7"); r != "ok" {
+			return "an UPDATE assigning the key its own value: " + r
+		}
+		return wantEq("a of row 7", w.q("select a from t where k = 7"), t("same key"))
+	}},
 	{id: "F74", props: []string{"C15", "C02", "C06"}, what: "a write_time outside 1677..2262 was accepted and wrapped around", run: func(w *wEnv) string {
 		for _, ts := range []string{"9999-12-31 23:59:59", "2262-04-12 00:00:00", "1600-01-01 00:00:00", "1000-01-01 00:00:00"} {
 			if r := w.x("update s3db_conn set write_time=?", ts); !strings.HasPrefix(r, "ERR") {
@@ -890,6 +904,93 @@ var witnesses = []witness{
 			return "fresh open: " + r
 		}
 		return wantEq("rows a fresh reader merges together", sqlh.QS(dbC, "select k from c order by k"), i(1)+" | "+i(3))
+	}},
+	{id: "F78", props: []string{"C02", "C10"}, known: true, what: "vacuum purges a delete marker together with hidden column writes that are newer than its cutoff: a later INSERT no longer loses against them", run: func(w *wEnv) string {
+		w.mk("t", "id primary key, a, b", sqlh.TableOpts{})
+		at := func(sec int) { w.x(fmt.Sprintf("update s3db_conn set write_time='2020-01-01 00:00:%02d'", sec)) }
+		at(1)
+		w.x("insert into t values (1,'a1','b1')")
+		at(10)
+		w.x("update t set b='b10' where id=1")
+		at(2)
+		w.x("delete from t where id=1")
+		if err := s3db.Vacuum(context.Background(), "t", time.Date(2020, 1, 1, 0, 0, 3, 0, time.UTC)); err != nil {
+			return "vacuum: " + err.Error()
+		}
+		at(4)
+		w.x("insert into t values (1,'a4','b4')")
+		return wantEq("b after INSERT@4 (UPDATE@10 assigned b later)", w.q("select b from t where id=1"), t("b10"))
+	}},
+	{id: "F79", props: []string{"C05", "C04", "C14"}, known: true, what: "a transaction over two s3db tables is published table by table: when the second table's commit fails the COMMIT fails but the first table's rows are durable", run: func(w *wEnv) string {
+		w.mk("a", "k primary key, v", sqlh.TableOpts{Prefix: "a"})
+		var cl *fakes3.Client
+		sqlh.NextClient("b", func(c *fakes3.Client) { cl = c })
+		w.mk("b", "k primary key, v", sqlh.TableOpts{Prefix: "b"})
+		sqlh.NextClient("", nil)
+		w.x("begin")
+		w.x("insert into a values (1,'debit')")
+		w.x("insert into b values (1,'credit')")
+		cl.Fault = func(idx, midx int, op, key string) error {
+			if op == "PUT" {
+				return awserr.New("InternalError", "injected fault", nil)
+			}
+			return nil
+		}
+		r := w.x("commit")
+		cl.Fault = nil
+		if !strings.HasPrefix(r, "ERR") {
+			return "commit with the second table's storage failing: " + r
+		}
+		w.x("rollback")
+		w.mk("ra", "k primary key, v", sqlh.TableOpts{Prefix: "a", ReadOnly: true})
+		return wantEq("rows of the first table a fresh reader sees after the failed COMMIT", w.q("select count(*) from ra"), i(0))
+	}},
+	{id: "F80", props: []string{"C01", "C02"}, known: true, what: "writers that declare different column lists: a value that predates a re-INSERT by a writer lacking the column is hidden or not depending on how the versions were grouped", run: func(w *wEnv) string {
+		read := func(intermediate bool) string {
+			b, _ := sqlh.Bucket()
+			defer sqlh.DropBucket(b)
+			open := func(name, cols string, ro bool) *sql.DB {
+				d := sqlh.Open()
+				sqlh.XS(d, sqlh.CreateSQL(sqlh.TableOpts{Name: name, Bucket: b, Prefix: "p", Columns: cols, ReadOnly: ro}))
+				return d
+			}
+			at := func(d *sql.DB, sec int) {
+				sqlh.XS(d, fmt.Sprintf("update s3db_conn set write_time='2020-01-01 00:00:%02d'", sec))
+			}
+			u := sqlh.Uniq()
+			wa, wb := open("wa"+u, "k primary key, a, b", false), open("wb"+u, "k primary key, a", false)
+			defer wa.Close()
+			defer wb.Close()
+			at(wa, 17)
+			sqlh.XS(wa, "insert into wa"+u+" values (1,17,17)")
+			at(wb, 20)
+			sqlh.XS(wb, "insert into wb"+u+" values (1,20)")
+			at(wb, 21)
+			sqlh.XS(wb, "delete from wb"+u+" where k=1")
+			if intermediate {
+				open("x"+u, "k primary key, a, b", false).Close()
+			}
+			at(wb, 28)
+			sqlh.XS(wb, "insert into wb"+u+" values (1,28)")
+			rd := open("rd"+u, "k primary key, a, b", true)
+			defer rd.Close()
+			return sqlh.QS(rd, "select k,a,b from rd"+u)
+		}
+		return wantEq("rows with an intermediate merging open (without one: "+read(false)+")", read(true), read(false))
+	}},
+	{id: "F82", props: []string{"C03", "C01", "C09"}, known: true, what: "two writers that find no version under the prefix and use different entries_per_node commit versions that no open can ever merge", run: func(w *wEnv) string {
+		w.mk("a", "k primary key, v", sqlh.TableOpts{EntriesPerNode: 4})
+		dbB := sqlh.Open()
+		defer dbB.Close()
+		if r := sqlh.XS(dbB, sqlh.CreateSQL(sqlh.TableOpts{Name: "b", Bucket: w.bucket, Prefix: "p", Columns: "k primary key, v"})); r != "ok" {
+			return "second connection: " + r
+		}
+		w.x("insert into a values (1,'a')")
+		sqlh.Exec(dbB, "insert into b values (2,'b')")
+		if r := w.mk("c", "k primary key, v", sqlh.TableOpts{ReadOnly: true}); r != "ok" {
+			return "a later open: " + r
+		}
+		return wantEq("rows", w.q("select count(*) from c"), i(2))
 	}},
 	{id: "F76", props: []string{"C04", "C14", "C16", "C05"}, what: "after a commit that failed while storing nodes (twice, or once after any rollback) the next acknowledged commit published a version referring to a node that was never stored", run: func(w *wEnv) string {
 		for variant := 0; variant < 2; variant++ {
